@@ -70,6 +70,8 @@ def gen_consts():
     sh([sys.executable, os.path.join(VERIF, "tools", "gen_chan.py"), os.path.join(COQ, "gen", "ChanProg.v")])
     # T5: the body of the single-threaded executor's run (obligations of C06 / C11)
     sh([sys.executable, os.path.join(VERIF, "tools", "gen_strun.py"), os.path.join(COQ, "gen", "StRunProg.v")])
+    # T6: the constants of util/slot.rs (obligations of C19)
+    sh([sys.executable, os.path.join(VERIF, "tools", "gen_slot.py"), os.path.join(COQ, "gen", "SlotProg.v")])
     return out
 
 
